@@ -34,7 +34,8 @@ MANIFEST = {
     "text": "Bounded symbolic, partial: f(x) under every permutation of set order / module order equals f(x) under the "
             "identity, for every input of the bounded grammars, decided by CrossHair partitions.",
     "note": "Trusted: CrossHair/z3; PermSet as a model of hash-seed-dependent iteration. Not applicable: cwd, path "
-            "spelling, repeated runs. Known findings: two same-module alias candidates; ambiguous bare references.",
+            "spelling, repeated runs. Known findings: two same-module alias candidates; ambiguous bare references. "
+            "The choice of the analysed package directory is decided for every enumeration order of up to four package directories.",
     "technique": "CrossHair symbolic execution with the iteration order as a symbolic permutation (relational oracle f(x) == f(pi x))",
 }
 
